@@ -34,6 +34,27 @@ var confMutations = []string{
 
 func checkConf(c confCase, r *h.Rec) error {
 	b := c.Base
+	// The party that has to produce the confirmation value under attack asks
+	// for confirmation; whether the verifying party itself generates one is
+	// part of the case: a value that is present must be verified either way
+	// (documented on ConfirmResponder: "If the peer's signature is not empty,
+	// then it will also validate the peer's signature").
+	onSB := c.Mut == "flip SB" || c.Mut == "truncate SB" || c.Mut == "extend SB" || c.Mut == "SB:=S2 (tags swapped)" ||
+		c.Mut == "SB of another session" || c.Mut == "SB all zero" || c.Mut == "SB random"
+	onSA := c.Mut == "flip SA" || c.Mut == "truncate SA" || c.Mut == "extend SA" || c.Mut == "SA:=S1 (tags swapped)" ||
+		c.Mut == "SA of another session" || c.Mut == "SA empty non-nil" || c.Mut == "SA random"
+	iniConf, resConf := true, true
+	if onSB {
+		iniConf = b.ConfA
+	} else if onSA {
+		resConf = b.ConfB
+	}
+	if !iniConf {
+		r.Label("verifier does not generate its own confirmation")
+	}
+	if !resConf {
+		r.Label("verifier does not generate its own confirmation")
+	}
 	b.ConfA, b.ConfB = true, true
 	e := refExpect(b)
 	r.Label("mutation:" + c.Mut)
@@ -74,11 +95,11 @@ func checkConf(c confCase, r *h.Rec) error {
 	beliefsDiffer := !bytes.Equal(effUID(iniPeerUID), effUID(resOwnUID)) || !bytes.Equal(effUID(resPeerUID), effUID(e.A.uid)) ||
 		!ref.SM2.Equal(iniPeerP, e.B.P) || !ref.SM2.Equal(resPeerP, e.A.P)
 
-	ini, err := newExchange(privA, iniPeerP, e.A.uid, iniPeerUID, b.KLen, true, false)
+	ini, err := newExchange(privA, iniPeerP, e.A.uid, iniPeerUID, b.KLen, iniConf, false)
 	if err != nil {
 		return fmt.Errorf("initiator NewKeyExchange: %v%s", err, desc)
 	}
-	res, err := newExchange(privB, resPeerP, resOwnUID, resPeerUID, b.KLen, true, false)
+	res, err := newExchange(privB, resPeerP, resOwnUID, resPeerUID, b.KLen, resConf, false)
 	if err != nil {
 		return fmt.Errorf("responder NewKeyExchange: %v%s", err, desc)
 	}
@@ -100,8 +121,8 @@ func checkConf(c confCase, r *h.Rec) error {
 	if err != nil || !pubEq(RB, e.B.R) {
 		return fmt.Errorf("RepondKeyExchange: %s, %v%s", pubHex(RB), err, desc)
 	}
-	if !bytes.Equal(sB, expB.s1) {
-		return fmt.Errorf("responder's SB=%x, GB/T 32918.3 value under its own view %x%s", sB, expB.s1, desc)
+	if resConf && !bytes.Equal(sB, expB.s1) || !resConf && sB != nil {
+		return fmt.Errorf("responder's SB=%x, GB/T 32918.3 value under its own view %x (genSignature=%v)%s", sB, expB.s1, resConf, desc)
 	}
 
 	if beliefsDiffer {
@@ -195,10 +216,8 @@ func checkConf(c confCase, r *h.Rec) error {
 		}
 		return s, true
 	}
-	onSB := c.Mut == "flip SB" || c.Mut == "truncate SB" || c.Mut == "extend SB" || c.Mut == "SB:=S2 (tags swapped)" ||
-		c.Mut == "SB of another session" || c.Mut == "SB all zero" || c.Mut == "SB random"
 	if onSB {
-		bad, ok := mutate(sB, true)
+		bad, ok := mutate(e.s1, true)
 		if !ok || bytes.Equal(bad, e.s1) {
 			r.Label("skipped: mutation is the identity")
 			return nil
@@ -215,6 +234,10 @@ func checkConf(c confCase, r *h.Rec) error {
 	key, sA, err := ini.ConfirmResponder(clonePub(RB), cp(sB))
 	if err != nil || !bytes.Equal(key, e.key) || !bytes.Equal(sA, e.s2) {
 		return fmt.Errorf("honest ConfirmResponder: key=%x sA=%x err=%v%s", key, sA, err, desc)
+	}
+	if !onSA {
+		r.Label("skipped: mutation is the identity")
+		return nil
 	}
 	bad, ok := mutate(sA, false)
 	if !ok || bytes.Equal(bad, e.s2) && bad != nil {
@@ -243,7 +266,8 @@ func TestC08_Confirmation(t *testing.T) {
 			DA: b32(uniformScalar(rapid.Uint64().Draw(t, "dA"))), RA: b32(uniformScalar(rapid.Uint64().Draw(t, "rA"))),
 			DB: b32(uniformScalar(rapid.Uint64().Draw(t, "dB"))), RB: b32(uniformScalar(rapid.Uint64().Draw(t, "rB"))),
 			UA: drawUID(t, "uidA"), UB: drawUID(t, "uidB"),
-			KLen: rapid.SampledFrom([]int{1, 16, 16, 32, 48, 100}).Draw(t, "klen"), ConfA: true, ConfB: true,
+			KLen: rapid.SampledFrom([]int{1, 16, 16, 32, 48, 100}).Draw(t, "klen"),
+			ConfA: rapid.Bool().Draw(t, "verifierConfA"), ConfB: rapid.Bool().Draw(t, "verifierConfB"),
 		}
 		return confCase{Base: b, Mut: rapid.SampledFrom(confMutations).Draw(t, "mutation"),
 			Pos: rapid.IntRange(0, 31).Draw(t, "pos"), Bit: rapid.IntRange(0, 7).Draw(t, "bit"), Seed: rapid.Uint64().Draw(t, "seed")}
@@ -263,7 +287,9 @@ func TestC08_FlipExhaustive(t *testing.T) {
 		step := h.Scale(3, 1)
 		for _, m := range []string{"flip SB", "flip SA"} {
 			for i := 0; i < 256; i += step {
-				emit(confCase{Base: b, Mut: m, Pos: i / 8, Bit: i % 8})
+				bb := b
+				bb.ConfA, bb.ConfB = i%2 == 0, i%2 == 0 // does the verifier generate a confirmation itself?
+				emit(confCase{Base: bb, Mut: m, Pos: i / 8, Bit: i % 8})
 			}
 			for n := 1; n < 32; n += 5 {
 				emit(confCase{Base: b, Mut: "truncate S" + m[6:], Pos: n})
